@@ -35,9 +35,9 @@ from bounded.tpk import (Build, T0, PREFSETS, FLAGSETS, split_tpk, verify_tpk, s
 
 EXPIRIES = [None, datetime.timedelta(days=4000), datetime.timedelta(days=5000, seconds=7)]
 
-OPS_QUICK = ['add_uid', 'add_sub_sig', 'add_sub_enc', 'recert', 'third', 'revoke_uid', 'revoke_sub', 'revoke_key',
+OPS_QUICK = ['add_uid', 'add_sub_sig', 'add_sub_enc', 'recert', 'rebind', 'third', 'revoke_uid', 'revoke_sub', 'revoke_key',
              'del_uid', 'protect', 'unlock_sign', 'pubkey_hold', 'roundtrip', 'copy']
-OPS_ALL = OPS_QUICK + ['add_ua', 'rebind', 'revoker', 'readd_uid', 'pubkey', 'pubkey_release']
+OPS_ALL = OPS_QUICK + ['add_ua', 'third_exportable', 'revoker', 'readd_uid', 'pubkey', 'pubkey_release']
 
 
 class Hist(object):
@@ -112,6 +112,8 @@ class Hist(object):
                      key_expiration=self.cyc(EXPIRIES, 'ex'))
         elif op == 'third':
             b.third(self.pick(b.uids, 'third'), t)
+        elif op == 'third_exportable':
+            b.third(self.pick(b.uids, 'third'), t, exportable=True)
         elif op == 'revoke_uid':
             b.revoke_uid(self.pick(b.uids, 'revoke_uid'), t)
         elif op == 'revoke_sub':
@@ -421,6 +423,21 @@ def well_formed(h):
     except Exception as ex:
         problems.append(('verify', 'pgpy verification raised %s: %s' % (type(ex).__name__, str(ex)[:60])))
     check_object(twin, b, 'public twin', problems)
+
+    # an earlier-derived twin that the caller still holds: pgpy builds a new twin on every `.pubkey` access, so the held
+    # object is a snapshot (it only receives `key |= x` additions until the next access). Required of it: still a
+    # well-formed public key with the same fingerprint whose signatures all verify.
+    if h.held is not None:
+        try:
+            hk, pr = split_tpk(bytes(h.held))
+            if pr or len(hk) != 1 or hk[0]['tag'] != 6 or any(s['tag'] != 14 for s in hk[0]['subs']) or hk[0]['k']['fpr'] != ske['k']['fpr']:
+                problems.append(('held-twin', 'earlier-derived public key is no longer a well-formed public key: %s' % (pr[:1] or 'tags/fingerprint')))
+            else:
+                n_, ne_, vp = verify_tpk(hk[0], known=[b.other_ik])
+                nsig += n_ + ne_
+                problems += [('held-twin', 'earlier-derived public key: ' + p) for p in vp]
+        except Exception as ex:
+            problems.append(('held-twin', 'earlier-derived public key cannot be exported/read: %s %s' % (type(ex).__name__, str(ex)[:60])))
 
     # import of the export
     try:
